@@ -125,7 +125,11 @@ func initMathStubs() {
 			outs = append(outs, e.panicOut(p, e.runtimeError("invalid argument to Intn"), "rand.Intn(n<=0)", site)...)
 		}
 		st.Assume(Not(bad))
-		r := e.fresh("intn", BV(64))
+		rs := BV(64)
+		if mathInts {
+			rs = IntSort
+		}
+		r := e.fresh("intn", rs)
 		st.Assume(BVCmp("bvsle", BVConst(0, 64), r))
 		st.Assume(BVCmp("bvslt", r, n))
 		return append(outs, ret(st, r)...)
